@@ -511,7 +511,7 @@ Section McuBoot.
     | 31 => cmd_data_in fuel (pkt_fuse_read a0 a1 a2) 3
     | 32 => simple (pkt_update_life_cycle a0)
     | 33 => simple (pkt_ele_message a0 a1 a2 a3)
-    | _ => mraise XHang
+    | _ => mraise (XCrash 98)     (* not an operation of this model *)
     end.
 
   (* a session: every call is made, whatever the previous ones returned; observed: outcome + status_code *)
